@@ -1,5 +1,5 @@
 #!/venv/bin/python
-"""./vf setup | check <ID> --tier quick|thorough | replay <path> | selftest <ID>"""
+"""./vf setup | check <ID> --tier quick|thorough | extra <name> --tier ... | replay <path> | selftest <ID>"""
 import argparse
 import importlib
 import os
@@ -28,6 +28,9 @@ CHECKS = {
     "C07": ("c07", {}), "C09": ("c09", {}), "C17": ("c17", {}),
 }
 
+# specifications beyond the listed properties (not in MANIFEST.checks; evidence under extras/evidence)
+EXTRAS = {"tensor": "xtensor"}
+
 
 def main():
     ap = argparse.ArgumentParser()
@@ -38,6 +41,9 @@ def main():
     c.add_argument("--tier", default=os.environ.get("VERIF_TIER", "quick"), choices=["quick", "thorough"])
     r = sub.add_parser("replay")
     r.add_argument("path")
+    x = sub.add_parser("extra")
+    x.add_argument("name", choices=sorted(EXTRAS))
+    x.add_argument("--tier", default=os.environ.get("VERIF_TIER", "quick"), choices=["quick", "thorough"])
     st = sub.add_parser("selftest")
     st.add_argument("ids", nargs="*")
     a = ap.parse_args()
@@ -49,6 +55,9 @@ def main():
             modname, kw = CHECKS[a.prop]
             mod = importlib.import_module(modname)
             sys.exit(mod.run(a.prop, a.tier, **kw))
+        if a.cmd == "extra":
+            mod = importlib.import_module(EXTRAS[a.name])
+            sys.exit(mod.run(a.name, a.tier))
         if a.cmd == "selftest":
             import selftest
             sys.exit(selftest.main(a.ids))
